@@ -436,3 +436,9 @@ def run(db, ctx):
     r101(db, ctx)
     r102_103(db, ctx)
     r104(db, ctx)
+    # the mirror clause is stated on scores: "the reverse-complemented matrix scores position L - M - i as the matrix scores i" presupposes
+    # that a kernel sums *all* M rows of whichever matrix it is given (seed C10-6: an unrolled kernel dropped the last row of even-width
+    # motifs — the forward matrix loses row M - 1, the reverse complement loses the complement of row 0, and the mirror breaks)
+    from . import C01
+    common.shared_rule(db, ctx, C01.kernel_rules, 'R10.5', 'every scoring kernel sums all M rows of the matrix it is given at every position (lane semantics of the '
+                       'SIMD kernels and the generic kernel) — shared with R1.1', ['R1.1'])
